@@ -211,6 +211,15 @@ func (r *pkgRun) step(op Op, i int) (ret string, written []byte, entry string) {
 	case "SetFootnoteConfig":
 		return errRet(d.SetFootnoteConfig(&document.FootnoteConfig{NumberFormat: document.FootnoteFormatLowerRoman, StartNumber: 1 + i%3,
 			RestartEach: document.FootnoteRestartContinuous, Position: document.FootnotePositionPageBottom})), nil, ""
+	case "SetFootnoteFormat": // the configuration enums are open string types
+		return errRet(d.SetFootnoteConfig(&document.FootnoteConfig{NumberFormat: document.FootnoteNumberFormat(pkgIdent(tc, i)), StartNumber: 2,
+			RestartEach: document.FootnoteRestart(pkgIdent(tc, i+1)), Position: document.FootnotePosition(pkgIdent(tc, i+2))})), nil, ""
+	case "TOCSDT":
+		sdt := d.CreateTOCSDT(s, 3)
+		sdt.AddTOCEntry(pkgText(tc, i+1), 1, 1, pkgIdent(tc, i+2))
+		sdt.AddTOCEntry(pkgText(tc, i+3), 2, 3, "_Toc1")
+		sdt.FinalizeTOCSDT()
+		d.Body.AddElement(sdt)
 	case "GenerateTOC":
 		return errRet(d.GenerateTOC(&document.TOCConfig{Title: s, MaxLevel: 3, ShowPageNum: i%2 == 0, RightAlign: true, UseHyperlink: i%3 != 0, DotLeader: true})), nil, ""
 	case "AutoGenerateTOC":
